@@ -386,6 +386,11 @@ def check_assignment(ctx, res, drv, solver_cls):
             if isinstance(out, Exception):
                 res.violation("ea:raised", "get_emission_assignment returns an assignment", input=inp, impl=repr(out)[:200])
                 continue
+            try:
+                out = list(out)
+            except TypeError:  # not a sequence at all
+                res.violation("ea:bound", "every photon is assigned an existing emitter (assignment[i] < n_emitter), one entry per photon", input=inp, impl=repr(out)[:200])
+                continue
             if len(out) != n_p or any((not isinstance(x, (int, np.integer))) or x < 0 or x >= n_e for x in out):
                 res.violation("ea:bound", "every photon is assigned an existing emitter (assignment[i] < n_emitter), one entry per photon", input=inp, impl=str(out))
                 continue
@@ -580,12 +585,13 @@ def check_solver_runs(ctx, res, log, rs):
         state = {"anchors": {}, "moves": 0}
 
         def wrap(f):
-            def run(circuit, *a, **kw):
+            def run(*a, **kw):
+                circuit = a[0] if a else kw.get("circuit")  # the arguments themselves are forwarded exactly as given
                 state["moves"] += 1
                 before = wu.snapshot(circuit)
                 anchors = state["anchors"].setdefault(id(circuit), wu.fixed_anchor(circuit, initial=True))
                 mark = len(patch.calls)
-                out = f(circuit, *a, **kw)
+                out = f(*a, **kw)
                 inp = {"before": wu.encode(before), "t": f.__name__, "start": "solve()"}
                 if oracle(res, circuit, anchors, f"move:{f.__name__}", inp):
                     log.add(before, f.__name__, wu.snapshot(circuit), patch.calls[mark:], "solve()")
@@ -750,19 +756,23 @@ class BuildObserver:
             self._saved.append((TimeReversedSolver, name, orig))
 
             def make(orig):
-                def wrapped(solver, circuit, *a, **k):
-                    return obs.around(circuit, lambda: orig(solver, circuit, *a, **k))
+                def wrapped(solver, *a, **k):
+                    # arguments are forwarded exactly as given; the circuit is the first positional argument or the `circuit` keyword
+                    circuit = a[0] if a else k.get("circuit")
+                    if circuit is None:
+                        return orig(solver, *a, **k)
+                    return obs.around(circuit, lambda: orig(solver, *a, **k))
                 return wrapped
 
             setattr(TimeReversedSolver, name, make(orig))
         orig_add = CircuitDAG.add
         self._saved.append((CircuitDAG, "add", orig_add))
 
-        def add(circ, op, *a, **k):
-            # extra arguments of a refactored CircuitDAG.add are handed through untouched
+        def add(circ, *a, **k):
+            # the arguments of CircuitDAG.add (positional or keyword, extra ones of a refactored signature) are handed through untouched
             if id(circ) in obs.hist:
-                return obs.around(circ, lambda: orig_add(circ, op, *a, **k))
-            return orig_add(circ, op, *a, **k)
+                return obs.around(circ, lambda: orig_add(circ, *a, **k))
+            return orig_add(circ, *a, **k)
 
         CircuitDAG.add = add
         return self
